@@ -114,6 +114,7 @@ CORPUS = [
     T('c19-benign-bdsk-grid-required-elsewhere', EV, '    if arg.birth_death == "bdsk" and arg.grid is None:\n        parser.error("bdsk birth-death model requires the grid argument")\n',
       '    if arg.grid is None and arg.birth_death is not None and arg.birth_death == "bdsk":\n        parser.error("--grid is required by bdsk")\n', benign=True),
     T('c19-rescaled-rates-listed-as-a-jacobian', 'torchtree/cli/jacobians.py', "            if dict_def['transform'] != 'RescaledRateTransform' and not (", "            if not (", expect=[('C19.J', 'log-determinant-of-RescaledRateTransform')]),
+    T('c19-block-update-emitted-with-integrated-gmrf', 'torchtree/cli/mcmc.py', "            and not arg.gmrf_integrated\n", "", expect=[('C19.D', 'GMRFPiecewiseCoalescentBlockUpdatingOperator.gmrf->gmrf:GMRFGammaIntegrated')]),
 ]
 for m in CORPUS:
     if m.id == 'c19-transform-string-typo':
